@@ -761,7 +761,7 @@ def run(ctx):
     if rp is not None:
         ctx.coverage["ubsan_replay_rand_interval"] = rp
         if rp["witness"]["ubsan"]:
-            ctx.violation("rand_interval:shift-by-64", "ibz_rand_interval shifts a 64-bit word by 64 when bitlen(b-a) % 64 == 0 (UBSan: %s)" % rp["witness"]["ubsan"][0][-120:],
+            ctx.violation("rand_interval:shift-by-64", "ibz_rand_interval shifts a 64-bit word by 64 when bitlen(b-a) %% 64 == 0 (UBSan: %s)" % rp["witness"]["ubsan"][0][-120:],
                           dict(op="randint 0 ffffffffffffffff 0102030405060708", ubsan=rp["witness"]["ubsan"], control=rp["control"]))
         ctx.obligation("UBSan: control width (bitlen % 64 != 0) runs clean", not rp["control"]["ubsan"] and rp["control"]["rc"] == 0, json.dumps(rp["control"]))
         if rp["control"]["ubsan"] or rp["control"]["rc"] != 0:
